@@ -35,6 +35,24 @@ def obligations(tier):
     obs.append(Ob(id='refusal_names_missing', module=M, func='refusal_names_missing',
                   params=', '.join(f'{p}{i}: bool' for p in 'ab' for i in range(5)), pre=['True'], timeout=T,
                   group='refusal', bound='used x allowed: any two subsets of the 5 flags'))
+    # first half of C08: has_dml through the REAL query path (vlib/harness/C08_dml.py), plain and under ANALYZE
+    M2 = 'vlib.harness.C08_dml'
+    T2 = float(os.environ.get('VERIF_XH_TIMEOUT') or (400 if quick else 1800))
+    obs.append(Ob(id='real.nested-dml', module=M2, func='capabilities_ok', params='a: int, b: int, wb: int, wrap: int',
+                  args='4, a, 0, b, wb, wrap', pre=['0 <= a < 3 and 0 <= b < 8 and 0 <= wb < 14 and 0 <= wrap < 4'], timeout=T2,
+                  group='real query path', bound='8 DML statements x 14 nesting contexts (sub-query, tuple, WITH used / unused, FOR body, '
+                  'count(), EXISTS, shape element, IF/ELSE branches, set literal, FILTER, INSERT value, ??, shape subject) x 3 '
+                  'surrounding atoms x {plain, ANALYZE, ANALYZE execute true / false}'))
+    for wrap in ((0, 2) if quick else (0, 1, 2, 3)):
+        obs.append(Ob(id=f'real.dml-forms.wrap{wrap}', module=M2, func='capabilities_ok', params='a: int, b: int, wb: int',
+                      args=f'3, a, 0, b, wb, {wrap}', pre=['0 <= a < 28 and (b == 0 or b == 3 or b == 15) and 0 <= wb < 8'] if quick
+                      else ['0 <= a < 28 and 0 <= b < 28 and 0 <= wb < 8'], timeout=T2, group='real query path',
+                      bound='8 INSERT / UPDATE / DELETE / FOR-INSERT forms built around every atom'))
+    obs.append(Ob(id='real.read-only', module=M2, func='capabilities_ok', params='a: int, wa: int, wrap: int',
+                  args='0, a, wa, 0, 0, wrap', pre=['0 <= a < 28 and 0 <= wa < 18 and 0 <= wrap < 4'], timeout=T2, group='real query path',
+                  bound='every wrapped atom (read-only): no MODIFICATIONS reported, plain and under ANALYZE'))
+    obs.append(Ob(id='twin.real-dml', module=M2, func='twin_dml', params='a: int', post='not _', expect='cex',
+                  pre=['0 <= a < 14'], timeout=120, group='twin'))
     obs.append(Ob(id='twin.dispatch', module=M, func='dispatch_caps', params='sub: int', post='not _', expect='cex',
                   args='7, sub, True, False, 0, 0, False', pre=['0 <= sub <= 2'], timeout=60, group='twin'))
     return obs
@@ -53,15 +71,19 @@ def run(tier, only=''):
                      'sub-compilers (has_dml, transaction action of a migration command, configuration scope) the capability '
                      'set returned by _compile_dispatch_ql, stored in the QueryUnit and aggregated by QueryUnitGroup.append '
                      'contains the capability the statement needs; a group carries exactly the union of its units; a refusal '
-                     'names a capability that is used and not allowed.'),
+                     'names a capability that is used and not allowed. Second part (group "real query path"): queries of a '
+                     'compositional family (hand-built qlast; DML statements, DML in 14 nesting contexts, read-only queries; plain and '
+                     'wrapped in ANALYZE with / without execute) go through the REAL _compile_dispatch_ql -> _compile_ql_query / '
+                     '_compile_ql_explain -> EdgeQL compiler -> SQL compiler -> descriptors: a statement reports MODIFICATIONS and '
+                     'has_dml exactly when it contains a data-modifying sub-statement anywhere.'),
         bounds={'statement kinds': 8, 'sub-forms': 8, 'units per group': '<= 3', 'capability flags': 5},
-        stubs=['_compile_ql_query, _compile_ql_explain, _compile_ql_administer, _compile_ql_config_op, '
+        stubs=['(dispatch part only) _compile_ql_query, _compile_ql_explain, _compile_ql_administer, _compile_ql_config_op, '
                'ddl.compile_and_apply_ddl_stmt, ddl.compile_dispatch_ql_migration are stand-ins returning real dbstate result '
                'objects with harness-chosen has_dml / tx_action / scope (their real bodies need the std schema); transaction '
                'and session statements run the real code'],
         trusted_base=['expected(): the capability each statement kind needs (20 lines, from the property statement)', 'CrossHair, z3'],
-        assumptions=['has_dml reported by the query compiler is correct (the first half of C08: that it is set for every nesting '
-                     'context needs real compilation and is NOT decided here)'],
-        outside=['has_dml recording sites in edgeql/compiler (stmt.py, func.py)', 'dbview.check_capabilities (Cython)',
+        assumptions=['real query path: std is a transcribed fragment (see C13); queries are qlast trees, not text'],
+        outside=['DML inside functions (volatility Modifying), globals, triggers, rewrites, access-policy expressions',
+                 'dbview.check_capabilities (Cython)',
                  'SQL-protocol statements'],
     )
